@@ -203,12 +203,16 @@ AdaptOK(e) ==
        /\ \A r \in Idx : Near(Obs(e.applied[r]),                      \* Apply(white A) = white B (float32 path)
                               IMul(WhiteVec(e.b).vec[r], IFromInt(1)), WhiteVec(e.b).den, T1(Tol1e6), S18)
        /\ e.same_xyy                                                   \* xyY and XYZ constructors agree
-\* ColorFromXYY: (x Y / y, Y, (1 - x - y) Y / y) within float32 rounding (relative 4 2^-24 + 10^-9 absolute)
+\* ColorFromXYY: (x Y / y, Y, (1 - x - y) Y / y) in float32.  The third component is a
+\* difference (1 - x - y) scaled by Y / y = X + Y + Z, so the rounding of each component is
+\* bounded relative to that sum, not to the component itself (Z may be small by cancellation):
+\*   |o_r - v_r| <= 2.4e-7 (|X| + |Y| + |Z|) + 1e-9
 XyyToXyzOK(e) ==
-    LET w == WhiteVec(e.xyy) IN
-    \A r \in Idx :   \* |o/S - vec/den| <= 2.4e-7 |vec/den| + 1e-9
+    LET w == WhiteVec(e.xyy)
+        sum == Add(Add(w.vec[1].n, w.vec[2].n), w.vec[3].n)
+    IN \A r \in Idx :
        LE(Mul(IAbs(ISub(IMul(Obs(e.o[r]), w.den), IMul(w.vec[r], I(1, S18)))).n, Pow(<<10>>, 9)),
-          Add(Mul(Mul(w.vec[r].n, S18), FromInt(240)), Mul(Mul(w.den.n, S18), <<2>>)))
+          Add(Mul(Mul(sum, S18), FromInt(240)), Mul(Mul(w.den.n, S18), <<2>>)))
 ComposeOK(e) ==   \* (B->C)(A->B) = A->C within 10^-9 (1 + |entry|)
     LET ab == ObsMat(e.ab)  bc == ObsMat(e.bc)  ac == ObsMat(e.ac)
         pr == MatMul(bc, ab)
